@@ -13,3 +13,33 @@ package diskstore
 //@ func (DiskStore).Write
 //@   trusted
 //@   invokes f
+
+// Bucket operations as seen by their clients: they touch no client state (the key/value view of
+// a bucket is not modelled at this level); a scan calls its callback any number of times.
+//@ func (Bucket).Get
+//@   trusted
+//@   pure
+//@ func (Bucket).Put
+//@   trusted
+//@   pure
+//@ func (Bucket).Delete
+//@   trusted
+//@   pure
+//@ func (Bucket).ForEach
+//@   trusted
+//@   pure
+//@   iterates f
+//@ func (Bucket).PrefixScan
+//@   trusted
+//@   pure
+//@   iterates f
+//@ func (Bucket).RangeScan
+//@   trusted
+//@   pure
+//@   iterates f
+//@ func (BucketManager).Get
+//@   trusted
+//@   pure
+//@ func (DiskStore).Path
+//@   trusted
+//@   pure
